@@ -222,7 +222,13 @@ func layoutSig(c *ctx) {
 		sr, sv = new(big.Int).SetBytes(s2[:32]), new(big.Int).SetBytes(s2[32:])
 		obs = fmt.Sprintf("%s %s", sr, sv)
 	}
-	c.line("sigsplit "+hx.Hex(s2), obs)
+	c.pureLine("sigsplit "+hx.Hex(s2), obs, func() string {
+		// again: the real Verify must still be ecdsa.Verify on this split
+		if pub.Verify(s2, digest[:]) != (len(s2) == 64 && ecdsa.Verify((*ecdsa.PublicKey)(pub), digest[:], sr, sv)) {
+			return obs + " !"
+		}
+		return obs
+	})
 	// the real Verify must be ecdsa.Verify on exactly this split, and false for any other length
 	got := pub.Verify(s2, digest[:])
 	want := len(s2) == 64 && ecdsa.Verify((*ecdsa.PublicKey)(pub), digest[:], sr, sv)
@@ -236,9 +242,13 @@ func layoutSig(c *ctx) {
 		if r.Chance(1, 10) {
 			kf = "inf"
 			got2 := (&keys.PublicKey{}).Verify(s2, digest[:])
-			c.line("sigverify inf "+hx.Hex(s2)+" "+e, map[bool]string{true: "1", false: "0"}[got2])
+			c.pureLine("sigverify inf "+hx.Hex(s2)+" "+e, map[bool]string{true: "1", false: "0"}[got2], func() string {
+				return map[bool]string{true: "1", false: "0"}[(&keys.PublicKey{}).Verify(s2, digest[:])]
+			})
 		} else {
-			c.line("sigverify "+kf+" "+hx.Hex(s2)+" "+e, map[bool]string{true: "1", false: "0"}[got])
+			c.pureLine("sigverify "+kf+" "+hx.Hex(s2)+" "+e, map[bool]string{true: "1", false: "0"}[got], func() string {
+				return map[bool]string{true: "1", false: "0"}[pub.Verify(s2, digest[:])]
+			})
 		}
 	}
 	if got != want {
